@@ -200,7 +200,10 @@ Definition apply_filter (name : str) (x p : value) : fres :=
       do s <- str_of x;
       let l := Z.of_nat (length s) in
       if (i <=? 0)%Z || (l <? i)%Z then Ok x
-      else okv (VInt (Z.of_N ((nth (Z.to_nat (l - i)) s 0 + 256 - 48) mod 256)))
+      else
+        let c := nth (Z.to_nat (l - i)) s 0%N in
+        if (c <? 48)%N || (57 <? c)%N then Ok x      (* no digit there: the input (fix D39) *)
+        else okv (VInt (Z.of_N (c - 48)%N))
     else if is [102;105;108;116;101;114;73;114;105;101;110;99;111;100;101] (* filterIriencode *) then
       do s <- str_of x; okv (VStr (filter_iriencode s))
     else if is [102;105;108;116;101;114;74;111;105;110] (* filterJoin *) then
